@@ -31,6 +31,20 @@ cdef class Sub(Ext):
 
 def ccall(Ext o):
     return o.m()
+
+cdef class A2:
+    cdef f(self):
+        return "A2"
+
+cdef class B2(A2):
+    cpdef f(self):
+        return "B2"
+
+def ccall_b2(B2 o):
+    return o.f()
+
+def ccall_a2(A2 o):
+    return o.f()
 '''
 
 PSRC = '''
@@ -44,6 +58,20 @@ class Sub(Ext):
 
 def ccall(o):
     return o.m()
+
+class A2:
+    def f(self):
+        return "A2"
+
+class B2(A2):
+    def f(self):
+        return "B2"
+
+def ccall_b2(o):
+    return o.f()
+
+def ccall_a2(o):
+    return o.f()
 '''
 
 _CHILD = r'''
@@ -60,7 +88,10 @@ else:
 class A(mod.Ext): pass
 class B(A): pass
 class P(mod.Sub): pass
-CLS = {"A": A, "B": B, "P": P}
+class Q(mod.B2): pass
+CLS = {"A": A, "B": B, "P": P, "Q": Q}
+def meth(x):
+    return "f" if x in ("Q", "q") else "m"
 def mkcls(tag):
     def f(self): return tag
     return f
@@ -75,30 +106,33 @@ with open(histfile) as f:
         hist = rec["h"]
         n += 1
         for c in CLS.values():
-            if "m" in c.__dict__: del c.m
+            for nm in ("m", "f"):
+                if nm in c.__dict__: delattr(c, nm)
             # bump the dict version of every class: the static version pairs cached by the previous
             # history can then no longer match, as in the model's initial state
             c._bump = 1
             del c._bump
-        objs ={"a": A(), "b": B(), "p": P()}
+        objs ={"a": A(), "b": B(), "p": P(), "q": Q()}
         for k, st in enumerate(hist):
             op, x = st["op"], st["x"]
             try:
-                if op == "setcls": setattr(CLS[x], "m", mkcls("cls_" + x))
-                elif op == "delcls": delattr(CLS[x], "m")
-                elif op == "setinst": objs[x].m = mkinst("inst_" + x)
-                elif op == "delinst": del objs[x].m
-                elif op == "callc": got = mod.ccall(objs[x])
-                elif op == "callpy": got = objs[x].m()
+                if op == "setcls": setattr(CLS[x], meth(x), mkcls("cls_" + x))
+                elif op == "delcls": delattr(CLS[x], meth(x))
+                elif op == "setinst": setattr(objs[x], meth(x), mkinst("inst_" + x))
+                elif op == "delinst": delattr(objs[x], meth(x))
+                elif op == "callc": got = mod.ccall_b2(objs[x]) if x == "q" else mod.ccall(objs[x])
+                elif op == "callcb": got = mod.ccall_a2(objs[x])
+                elif op == "callpy": got = getattr(objs[x], meth(x))()
             except BaseException as e:
                 got = "E:" + type(e).__name__
-                if op not in ("callc", "callpy"):
+                if op not in ("callc", "callpy", "callcb"):
                     bad.append({"hist": n - 1, "step": k, "got": got, "want": "mutation ok"})
                     break
-            if op in ("callc", "callpy") and got != st["want"]:
+            if op in ("callc", "callpy", "callcb") and got != st["want"]:
                 bad.append({"hist": n - 1, "step": k, "got": got, "want": st["want"]})
 for c in CLS.values():
-    if "m" in c.__dict__: del c.m
+    for nm in ("m", "f"):
+        if nm in c.__dict__: delattr(c, nm)
 json.dump({"n": n, "bad": bad}, open(outfile, "w"))
 '''
 
@@ -111,7 +145,7 @@ def run(tier, seed):
     rep = core.Reporter(PROP)
     cov = {"tlc": []}
     t_nc = core.tlc_or_die("CpdefDispatch", cfg="CpdefDispatch_nocache", coverage=True, timeout=1200)
-    for act in ("DoSetCls", "DoDelCls", "DoSetInst", "DoDelInst", "DoCallC", "DoCallPy"):
+    for act in ("DoSetCls", "DoDelCls", "DoSetInst", "DoDelInst", "DoCallC", "DoCallPy", "DoCallCB"):
         if t_nc.coverage.get(act, (0, 0))[1] == 0:
             core.die("vacuous model: %s never taken" % act)
     cov["tlc"].append(dict(t_nc.summary(), config="UseCache=FALSE, MaxLen=5: MostDerived holds"))
@@ -124,7 +158,7 @@ def run(tier, seed):
     t_d = core.tlc_or_die("CpdefDispatch", cfg="CpdefDispatch_cache", timeout=1200)
     cov["tlc"].append(dict(t_d.summary(), config="UseCache=TRUE, MaxLen=4, all histories published with the model's prediction"))
     hists = t_d.printed
-    if len(hists) < 10000:
+    if len(hists) < 3000:
         core.die("only %d histories" % len(hists))
     sim = core.tlc_simulate("CpdefDispatch", "CpdefDispatch_sim", seconds=240 if tier == "quick" else 900, depth=15, seed=seed,
                             max_records=1000 if tier == "quick" else 30000, workers=4)
@@ -166,7 +200,7 @@ def run(tier, seed):
             # descriptor from the spec: the call kind, and whether the transcribed version cache predicts exactly this result
             desc = {"config": name, "op": st["op"], "model_predicts_this": name == "dictver" and st["ran"] == bd["got"] and st["ran"] != st["want"],
                     "want_kind": st["want"].split("_")[0]}
-            rep.disagree(desc, "runs-" + (bd["got"] if bd["got"] in ("Ext", "Sub") else bd["got"].split("_")[0]),
+            rep.disagree(desc, "runs-" + (bd["got"] if bd["got"] in ("Ext", "Sub", "B2", "A2") else bd["got"].split("_")[0]),
                          {"history": [[s["op"], s["x"]] for s in h], "step": bd["step"], "got": bd["got"], "want": st["want"], "config": name})
     stale_pred = sum(1 for r in allh if r["stale"])
     cov.update({
